@@ -6,6 +6,8 @@
        -> `if C: S[v:=X] else: S`
  N38 `D[k] = A if C else B` (a statement)  ->  `if C: D[k] = A else: D[k] = B`
  N39 `len(X) if X else 0` -> `len(X or ())`
+ N46 a local bound only to literals, once per branch, is replaced by the literal that reaches each read (straight-line, outside loops)
+ N47 `next(<generator expression>)` without a default -> `[<comprehension>][0]`
  N42 `isinstance(E.yaml_node, yaml.SequenceNode)` -> `E.is_sequence()`, MappingNode -> `E.is_mapping()` (outside the predicates)
  N43 local copy propagation `v = w` (both bound once)
  N41 `a, b = [(E1, E2) for .. in XS if C][i]` -> `a = [E1 for ..][i]`, `b = [E2 for ..][i]` (targets nobody reads are dropped)
@@ -365,11 +367,74 @@ def _dominated(fn, blk, idx, loads) -> bool:
     return all(id(n) in ok_ids for n in loads)
 
 
+def _lit(e) -> bool:
+    if isinstance(e, ast.Constant):
+        return True
+    return isinstance(e, ast.Tuple) and all(isinstance(x, ast.Constant) for x in e.elts)
+
+
+def _n46(fn):
+    """N46 a local that is only ever bound to literals (several times, once per branch) is replaced by the literal that reaches
+    each read: within the block of a binding, up to the next statement that re-binds it; bindings nobody reads any more are dropped"""
+    names = {}
+    for n in ast.walk(fn):
+        if isinstance(n, ast.Name) and not isinstance(n.ctx, ast.Load):
+            names.setdefault(n.id, []).append(n)
+    params = {a.arg for a in ast.walk(fn.args) if isinstance(a, ast.arg)}
+    cands = set()
+    for v, stores in names.items():
+        if v in params or len(stores) < 2:
+            continue
+        binds = [st for st in ast.walk(fn) if isinstance(st, ast.Assign) and len(st.targets) == 1 and isinstance(st.targets[0], ast.Name)
+                 and st.targets[0].id == v]
+        if len(binds) == len(stores) and all(_lit(b.value) for b in binds) and not any(
+                isinstance(n, (ast.FunctionDef, ast.Lambda)) and n is not fn and any(isinstance(x, ast.Name) and x.id == v for x in ast.walk(n))
+                for n in ast.walk(fn)):
+            cands.add(v)
+    if not cands:
+        return
+    # a loop may carry a value around: only straight-line blocks outside loops are rewritten
+    in_loop = {id(x) for lo in ast.walk(fn) if isinstance(lo, (ast.For, ast.While)) for x in ast.walk(lo)}
+    for holder, fld, blk in list(_blocks(fn)):
+        for i, st in enumerate(blk):
+            if not (isinstance(st, ast.Assign) and len(st.targets) == 1 and isinstance(st.targets[0], ast.Name)
+                    and st.targets[0].id in cands and id(st) not in in_loop):
+                continue
+            v = st.targets[0].id
+            for later in blk[i + 1:]:
+                if any(isinstance(n, ast.Name) and n.id == v and not isinstance(n.ctx, ast.Load) for n in ast.walk(later)):
+                    break
+                _Subst(lambda n: isinstance(n, ast.Name) and n.id == v and isinstance(n.ctx, ast.Load),
+                       lambda n: copy.deepcopy(st.value)).visit(later)
+    for v in cands:
+        if not any(isinstance(n, ast.Name) and n.id == v and isinstance(n.ctx, ast.Load) for n in ast.walk(fn)):
+            for holder, fld, blk in list(_blocks(fn)):
+                keep = [st for st in blk if not (isinstance(st, ast.Assign) and len(st.targets) == 1 and isinstance(st.targets[0], ast.Name)
+                                                 and st.targets[0].id == v)]
+                if len(keep) != len(blk):
+                    setattr(holder, fld, keep or [ast.Pass()])
+
+
+def _n47(tree):
+    """N47 `next(<generator expression>)` without a default is `[<the same comprehension>][0]`"""
+    class T(ast.NodeTransformer):
+        def visit_Call(self, n):
+            self.generic_visit(n)
+            if (isinstance(n.func, ast.Name) and n.func.id == 'next' and len(n.args) == 1 and not n.keywords
+                    and isinstance(n.args[0], ast.GeneratorExp)):
+                g = n.args[0]
+                return ast.copy_location(ast.Subscript(ast.ListComp(g.elt, g.generators), ast.Constant(0), ast.Load()), n)
+            return n
+    return T().visit(tree)
+
+
 def pre_normalize(tree: ast.Module) -> ast.Module:
     tree = _n39(tree)
+    tree = _n47(tree)
     _n42(tree)
     counter = [0]
     for fn in [n for n in ast.walk(tree) if isinstance(n, (ast.FunctionDef, ast.AsyncFunctionDef))]:
+        _n46(fn)
         _n41(fn)
         _n43(fn)
         _n40(fn)
